@@ -231,6 +231,9 @@ func solveDigest(d, k *big.Int, kind string, target *big.Int) (e []byte, ok bool
 		r.Sub(target, r)
 		r.Mul(r, ref.InvN(dm1))
 		r = ref.ModN(r)
+	case "r+k":
+		// (r + k) mod n = target
+		r = ref.ModN(new(big.Int).Sub(target, k))
 	case "t":
 		// t = D (k + r)  =>  r = t (1+d) - k
 		r = new(big.Int).Mul(target, new(big.Int).Add(d, bi(1)))
@@ -337,4 +340,43 @@ func rareNonceCases(rng *hk.RNG) ([]rareCase, error) {
 		}
 	}
 	return out, nil
+}
+
+// montgomeryPatternScalars returns residues mod n whose INTERNAL representation in the library's
+// scalar field (v * 2^256 mod n, four 64-bit limbs) is made of carry-critical limbs: 0, 1, 2^32,
+// 2^63, 2^64-1, high-half-only words ... Values of r+k, s, d+1 that are "nice" as integers have random
+// looking internal limbs; these are the ones that are nice inside.
+func montgomeryPatternScalars(rng *hk.RNG, count int) []*big.Int {
+	alpha := []uint64{0, 1, 1 << 32, 1 << 63, 1<<64 - 1, 0xFFFFFFFF00000000, 0xFFFFFFFE00000000, 1<<32 - 1, 0x8000000000000000, 0x0000000100000000, 0x7203DF6B21C6052B, 0x53BBF40939D54123}
+	rinv := new(big.Int).ModInverse(b256, nI)
+	var out []*big.Int
+	mk := func(l [4]uint64) {
+		m := new(big.Int)
+		for i := 3; i >= 0; i-- {
+			m.Lsh(m, 64)
+			m.Or(m, new(big.Int).SetUint64(l[i]))
+		}
+		if m.Cmp(nI) >= 0 || m.Sign() == 0 {
+			return
+		}
+		out = append(out, ref.ModN(new(big.Int).Mul(m, rinv)))
+	}
+	// all limbs with their low 32 bits clear / their high 32 bits clear / one limb only
+	hi := []uint64{1 << 32, 1 << 63, 0xFFFFFFFF00000000, 0xFFFFFFFE00000000, 0}
+	for a := 0; a < len(hi); a++ {
+		for b := 0; b < len(hi); b++ {
+			mk([4]uint64{hi[a], hi[b], hi[(a+b)%len(hi)], hi[(a*2+b)%len(hi)] & 0x7FFFFFFF00000000})
+		}
+	}
+	for i := 0; i < 4; i++ {
+		for _, v := range alpha[1:] {
+			var l [4]uint64
+			l[i] = v
+			mk(l)
+		}
+	}
+	for len(out) < count {
+		mk([4]uint64{alpha[rng.Intn(len(alpha))], alpha[rng.Intn(len(alpha))], alpha[rng.Intn(len(alpha))], alpha[rng.Intn(len(alpha))] >> 1})
+	}
+	return out
 }
